@@ -308,7 +308,7 @@ func (w *scriptedWatcher) Watch(ctx context.Context, _ object.ObjMetadataSet, _ 
 				}
 				last[d.ID] = d
 				w.mu.Lock()
-				w.log = append(w.log, Item{Seq: w.clock.Next(), Coq: "IDeliv " + d.Coq(), Text: "DELIV " + d.Text()})
+				w.log = append(w.log, journaled(Item{Seq: w.clock.Next(), Coq: "IDeliv " + d.Coq(), Text: "DELIV " + d.Text()}))
 				w.mu.Unlock()
 				if !send(w.delivery(d)) || !send(markerEvent()) {
 					alive = false
@@ -420,7 +420,7 @@ func (c *consumer) ids(set object.ObjMetadataSet) []int {
 func (c *consumer) id(m object.ObjMetadata) int { return c.ids(object.ObjMetadataSet{m})[0] }
 
 func (c *consumer) add(coq, text string, result bool) {
-	c.log = append(c.log, Item{Seq: c.clock.Next(), Coq: "IEv " + coq, Text: text, Result: result})
+	c.log = append(c.log, journaled(Item{Seq: c.clock.Next(), Coq: "IEv " + coq, Text: text, Result: result}))
 }
 
 func (c *consumer) gname(name string) string {
@@ -588,7 +588,7 @@ func (c *consumer) run(ch <-chan event.Event, watchdog time.Duration) bool {
 		select {
 		case e, ok := <-ch:
 			if !ok {
-				c.log = append(c.log, Item{Seq: c.clock.Next(), Coq: "IClosed", Text: "CLOSED"})
+				c.log = append(c.log, journaled(Item{Seq: c.clock.Next(), Coq: "IClosed", Text: "CLOSED"}))
 				c.board.set(func() { c.board.closed = true })
 				return true
 			}
